@@ -6,6 +6,9 @@
 #ifndef VERIF_ST_COMMON_H_
 #define VERIF_ST_COMMON_H_
 
+#include <climits>
+#include <limits>
+#include <memory>
 #include <gudhi/Simplex_tree.h>
 #include <gudhi/graph_simplicial_complex.h>
 #include "common/vh.h"
@@ -57,12 +60,20 @@ struct Opt_low_full : Gudhi::Simplex_tree_options_full_featured {  // test/simpl
 };
 
 // ---------------------------------------------------------------- histories
-enum OpKind { INS, INSF, BATCH, GRAPH, REM, PRUNE_F, PRUNE_D, CLEAR, NOP };
+enum OpKind { INS, INSF, BATCH, GRAPH, REM, PRUNE_F, PRUNE_D, CLEAR, NOP, STREAM };
 inline const char* op_name(OpKind k) {
   static const char* n[] = {"insert_simplex", "insert_simplex_and_subfaces", "insert_batch_vertices", "insert_graph",
-                            "remove_maximal_simplex", "prune_above_filtration", "prune_above_dimension", "clear", "nop"};
+                            "remove_maximal_simplex", "prune_above_filtration", "prune_above_dimension", "clear", "nop",
+                            "insert_simplex_stream"};
   return n[k];
 }
+// How the cached dimension bound is queried after a step (Op::qmode).  dimension() and num_simplices_by_dimension() both
+// refresh a stale bound, so a stale bound only survives to the next operation in modes Q_NONE.
+enum QMode { Q_NONE = 0,        // neither: a stale bound persists through the sweep and to the next operation
+             Q_BYDIM_THEN_DIM,  // num_simplices_by_dimension() in the sweep (refreshes), dimension() at the end
+             Q_DIM_FIRST,       // dimension() before anything else: its deep search runs in whatever state the operation left
+             Q_DIM_LAST,        // dimension() at the end, no num_simplices_by_dimension(): the sweep runs under the stale bound
+             Q_BYDIM_ONLY };    // num_simplices_by_dimension() only
 struct Op {
   OpKind kind = NOP;
   Simplex s;                  // INS / INSF / REM (sorted); BATCH: vertex list (may contain existing vertices)
@@ -71,16 +82,24 @@ struct Op {
   int d = 0;                  // PRUNE_D
   // GRAPH: vertices 0..n-1 with values, edges
   std::vector<double> gv; std::vector<std::tuple<int, int, double>> ge;
+  bool gdirected = false;     // GRAPH: boost::directedS instead of undirectedS
+  std::vector<std::pair<std::vector<long>, double>> stream;  // STREAM: (vertices as passed, value), in the order of insertion
   bool query_dimension = true;  // whether dimension() (which refreshes the cached bound) is queried after this step
+  int qmode = -1;               // QMode; -1: query_dimension ? Q_BYDIM_THEN_DIM : Q_NONE
   std::string cls;              // classification used in signatures
+  std::string inclass;          // class of the INPUT (e.g. repeated_vertex), appended to the signature when not empty
+  int mode() const { return qmode >= 0 ? qmode : (query_dimension ? Q_BYDIM_THEN_DIM : Q_NONE); }
+  std::string sig() const { return std::string("op=") + op_name(kind) + "," + cls + (inclass.empty() ? "" : "," + inclass); }
   std::string show() const {
     std::ostringstream o; o.precision(17);
     o << op_name(kind);
     if (kind == INS || kind == INSF || kind == REM || kind == BATCH) o << " " << vh::vstr(raw.empty() ? std::vector<long>(s.begin(), s.end()) : raw);
     if (kind == INS || kind == INSF || kind == BATCH || kind == PRUNE_F) o << " v=" << v;
     if (kind == PRUNE_D) o << " d=" << d;
-    if (kind == GRAPH) { o << " n=" << gv.size() << " vv=" << vh::vstr(gv) << " edges="; for (auto& e : ge) o << "(" << std::get<0>(e) << "," << std::get<1>(e) << ":" << std::get<2>(e) << ")"; }
-    o << (query_dimension ? " +dim()" : "") << " {" << cls << "}";
+    if (kind == GRAPH) { o << (gdirected ? " directed" : "") << " n=" << gv.size() << " vv=" << vh::vstr(gv) << " edges="; for (auto& e : ge) o << "(" << std::get<0>(e) << "," << std::get<1>(e) << ":" << std::get<2>(e) << ")"; }
+    if (kind == STREAM) for (auto& e : stream) o << " " << vh::vstr(e.first) << ":" << e.second;
+    if (qmode >= 0) o << " q" << qmode; else o << (query_dimension ? " +dim()" : "");
+    o << " {" << cls << (inclass.empty() ? "" : "," + inclass) << "}";
     return o.str();
   }
 };
@@ -93,6 +112,14 @@ struct History {
 };
 
 inline double grid_value(vh::Rng& r) { return 0.25 * (double)r.below(17); }
+// values of the whole (non-NaN) range of Filtration_value: -inf, +inf, negative and non-negative dyadic values
+inline double wide_value(vh::Rng& r) {
+  unsigned k = (unsigned)r.below(12);
+  if (k == 0) return -std::numeric_limits<double>::infinity();
+  if (k == 1) return std::numeric_limits<double>::infinity();
+  if (k <= 3) return -grid_value(r);
+  return grid_value(r);
+}
 
 inline Simplex random_subset(vh::Rng& r, const std::vector<long>& uni, int maxsize) {
   int sz = 1 + (int)r.below(maxsize);
@@ -101,75 +128,136 @@ inline Simplex random_subset(vh::Rng& r, const std::vector<long>& uni, int maxsi
   return Simplex(s.begin(), s.end());
 }
 
+// Extensions of the generator (input classes inside the quantifier of C01 that the first version of the harness did not
+// produce).  With ext == nullptr generate_history draws exactly the random numbers it always drew.
+struct GenExt {
+  bool ins_repeated = true;    // insert_simplex is given a repeated vertex (a simplex is a SET of vertices)
+  bool streams = true;         // out-of-order streams of the faces of a few simplices through insert_simplex
+  bool wide_values = true;     // -inf, +inf, negative values; -inf / negative pruning thresholds
+  bool extreme_labels = true;  // universes containing INT_MIN / INT_MAX (SHRT_MIN / SHRT_MAX with small_labels)
+  bool batch_variants = true;  // insert_batch_vertices with shuffled / repeated / empty lists
+  bool graph_variants = true;  // insert_graph with reversed / doubled edges, directedS, no vertex
+  bool qmodes = true;          // Op::qmode drawn from all QMode values
+  int max_simplex_size = 0;    // cap on the size of generated simplices (0: the universe size)
+  bool big = false;            // large universe: candidates of insert_simplex are derived from the model, sparse graphs
+};
+
 // Generates a precondition-respecting history from the model alone.
 //  contiguous: vertex set is {0..n-1} at all times (precondition of Options::contiguous_vertices)
 inline History generate_history(vh::Rng& r, bool contiguous, int nops_max = 40, bool allow_prune_f = true, bool small_labels = false,
-                                const ComplexModel* init = nullptr, const std::vector<long>* fixed_universe = nullptr, int nops_min = 1) {
+                                const ComplexModel* init = nullptr, const std::vector<long>* fixed_universe = nullptr, int nops_min = 1,
+                                const GenExt* ext = nullptr) {
   static const std::vector<std::vector<long>> universes = {
-      {0, 1, 2, 3, 4, 5, 6}, {-9, -2, 0, 3, 40, 1000000, 1073741824}, {10, 11, 12, 13, 14, 15, 16}, {-32000, -5, -1 + 0 * 1, 7, 8, 300, 32000}};
+      {0, 1, 2, 3, 4, 5, 6}, {-9, -2, 0, 3, 40, 1000000, 1073741824}, {10, 11, 12, 13, 14, 15, 16}, {-32000, -5, -1 + 0 * 1, 7, 8, 300, 32000},
+      // (ext) the extremes of Vertex_handle come first so that every prefix of length >= 3 contains them
+      {(long)INT_MIN, (long)INT_MAX, 0, -7, (long)INT_MAX - 1, 5, (long)INT_MIN + 1}, {-32768, 32767, 0, -7, 32766, 5, -32767}};
   History h;
   h.contiguous = contiguous;
-  int ui = contiguous ? 0 : (int)r.below(universes.size());
+  const bool xl = ext && ext->extreme_labels;
+  int ui = contiguous ? 0 : (int)r.below(universes.size() - (xl ? 0 : 2));
   if (small_labels && ui == 1) ui = 3;
+  if (small_labels && ui == 4) ui = 5;
   h.universe = universes[ui];
   if (!contiguous && ui == 3) h.universe[2] = -3;  // -1 is null_vertex(): never a real label
   int m = 3 + (int)r.below(5);
   h.universe.resize(m);
   if (fixed_universe) { h.universe = *fixed_universe; m = (int)h.universe.size(); }
+  const bool big = ext && ext->big;
+  const int maxsz = (ext && ext->max_simplex_size > 0) ? std::min(m, ext->max_simplex_size) : m;
+  const bool wide = ext && ext->wide_values;
+  const double lowest = wide ? -std::numeric_limits<double>::infinity() : 0.0;
+  auto val = [&]() { return wide ? wide_value(r) : grid_value(r); };
   ComplexModel M;
   if (init) M = *init;
   int nops = nops_min + (int)r.below(nops_max - nops_min + 1);
   std::set<Simplex> removed_once;
-  auto vertex_ok = [&](const Simplex& s) {
-    if (!contiguous) return true;
-    // keep {0..n-1}: a new vertex must be n (= current count)
+  // contiguous: remap a simplex so that the vertex set stays {0..n-1} (at most the one new vertex n)
+  auto remap_contiguous = [&](Simplex& s) {
     long n = (long)M.num_vertices();
-    for (long x : s) if (x > n || (x == n && false)) return false;
-    // at most one new vertex (n) -- inserting vertex n alone or a simplex whose new vertices are exactly {n}
-    return true;
+    std::set<long> t; for (long x : s) t.insert(x <= n ? x : n);
+    s.assign(t.begin(), t.end());
   };
   for (int step = 0; step < nops; ++step) {
     Op op;
     unsigned w = (unsigned)r.below(100);
     op.query_dimension = r.chance(1, 2);
+    if (ext && ext->qmodes) {
+      unsigned q = (unsigned)r.below(20);
+      op.qmode = q < 8 ? Q_NONE : q < 11 ? Q_BYDIM_THEN_DIM : q < 15 ? Q_DIM_FIRST : q < 18 ? Q_DIM_LAST : Q_BYDIM_ONLY;
+    }
     size_t nsimp = M.cx.size();
     if (nsimp == 0 && w >= 20 && w < 90) w = r.chance(1, 4) ? 47 : r.below(46);  // empty: insert / batch / graph
-    if (w < 12) {  // INS: simplex whose facets are all present
+    const bool do_stream = ext && ext->streams && r.chance(1, 12);
+    if (do_stream) {  // STREAM: all faces of 1-2 simplices, with monotone values, through insert_simplex in a random order
+      std::map<Simplex, double> rawv;
+      int ntop = 1 + (int)r.below(2);
+      for (int t = 0; t < ntop; ++t) {
+        Simplex s = random_subset(r, h.universe, std::min(maxsz, 4));
+        if (contiguous) remap_contiguous(s);
+        for (auto& f : ComplexModel::faces_all(s)) if (!rawv.count(f)) rawv[f] = val();
+        if (contiguous) break;  // a second simplex could bring a second new vertex
+      }
+      std::vector<std::pair<Simplex, double>> items;
+      for (auto& kv : rawv) { double v = kv.second; for (auto& g : ComplexModel::faces_all(kv.first)) v = std::max(v, rawv.at(g)); items.emplace_back(kv.first, v); }
+      r.shuffle(items);
+      bool anynew = false, anyold = false, outoforder = false; std::set<Simplex> seen;
+      for (auto& it : items) {
+        (M.has(it.first) ? anyold : anynew) = true;
+        for (auto& f : ComplexModel::facets(it.first)) if (!M.has(f) && !seen.count(f)) outoforder = true;
+        seen.insert(it.first);
+        if (!M.has(it.first) && removed_once.count(it.first)) h.reinsertion_after_removal = true;
+        std::vector<long> raw(it.first.begin(), it.first.end()); r.shuffle(raw);
+        op.stream.emplace_back(raw, it.second);
+      }
+      for (auto& it : items) M.insert_one(it.first, it.second);
+      op.kind = STREAM;
+      op.cls = std::string(anynew ? (anyold ? "mixed" : "all_new") : "all_existing") + (outoforder ? ",coface_before_face" : ",faces_first");
+    } else if (w < 12) {  // INS: simplex whose facets are all present
       std::vector<Simplex> cand;
       // candidates: vertices + simplices with all facets present
-      for (unsigned mask = 1; mask < (1u << m); ++mask) {
-        Simplex s; for (int i = 0; i < m; ++i) if (mask >> i & 1) s.push_back(h.universe[i]);
-        std::sort(s.begin(), s.end());
-        if (s.size() == 1 || M.facets_present(s)) {
-          if (contiguous && !M.has(s) && s.size() == 1 && s[0] != (long)M.num_vertices()) continue;
-          cand.push_back(s);
+      if (!big) {
+        for (unsigned mask = 1; mask < (1u << m); ++mask) {
+          Simplex s; for (int i = 0; i < m; ++i) if (mask >> i & 1) s.push_back(h.universe[i]);
+          std::sort(s.begin(), s.end());
+          if (s.size() == 1 || M.facets_present(s)) {
+            if (contiguous && !M.has(s) && s.size() == 1 && s[0] != (long)M.num_vertices()) continue;
+            cand.push_back(s);
+          }
         }
+      } else {  // the same set restricted to maxsz vertices, derived from the model: a candidate of size >= 2 extends a present facet
+        std::set<Simplex> cs;
+        for (long x : h.universe) cs.insert(Simplex{x});
+        for (auto& kv : M.cx) if ((int)kv.first.size() < maxsz) for (long x : h.universe) {
+          if (std::binary_search(kv.first.begin(), kv.first.end(), x)) continue;
+          Simplex s = kv.first; s.push_back(x); std::sort(s.begin(), s.end());
+          if (!cs.count(s) && M.facets_present(s)) cs.insert(s);
+        }
+        cand.assign(cs.begin(), cs.end());
       }
       if (cand.empty()) { continue; }
       // prefer absent simplices and previously removed ones
       Simplex s = cand[r.below(cand.size())];
       for (int t = 0; t < 3 && M.has(s); ++t) s = cand[r.below(cand.size())];
-      double lo = 0; for (auto& f : ComplexModel::facets(s)) lo = std::max(lo, M.cx.at(f));
-      double v = std::max(lo, grid_value(r));
+      double lo = lowest; for (auto& f : ComplexModel::facets(s)) lo = std::max(lo, M.cx.at(f));
+      double v = std::max(lo, val());
       bool existed = M.has(s);
       op.kind = INS; op.s = s; op.v = v; op.raw.assign(s.begin(), s.end()); r.shuffle(op.raw);
+      if (ext && ext->ins_repeated && r.chance(1, 6)) {  // a repeated vertex: still the same simplex
+        int reps = 1 + (int)r.below(2);
+        for (int t = 0; t < reps; ++t) { long x = op.raw[r.below(op.raw.size())]; size_t at = r.below(op.raw.size() + 1); op.raw.insert(op.raw.begin() + at, x); }
+        op.inclass = "repeated_vertex";
+      }
       op.cls = existed ? (v < M.cx.at(s) ? "existing_lowered" : "existing_kept") : "new";
       if (removed_once.count(s) && !existed) h.reinsertion_after_removal = true;
       M.insert_one(s, v);
     } else if (w < 40) {  // INSF
-      Simplex s = random_subset(r, h.universe, m);
-      if (contiguous) {
-        // only allow if new vertices are exactly the next ones: remap so that vertex set stays {0..n-1}
-        long n = (long)M.num_vertices();
-        std::set<long> t; for (long x : s) t.insert(x <= n ? x : n);
-        // new vertex n allowed once; ok
-        s.assign(t.begin(), t.end());
-      }
-      op.kind = INSF; op.s = s; op.v = grid_value(r);
+      Simplex s = random_subset(r, h.universe, maxsz);
+      if (contiguous) remap_contiguous(s);  // new vertices must be exactly the next ones
+      op.kind = INSF; op.s = s; op.v = val();
       op.raw.assign(s.begin(), s.end()); r.shuffle(op.raw);
       if (r.chance(1, 6) && !op.raw.empty()) op.raw.push_back(op.raw[r.below(op.raw.size())]);  // duplicate vertex
       bool existed = M.has(s);
-      op.cls = existed ? "existing" : "new";
+      op.cls = existed ? (ext ? (op.v < M.cx.at(s) ? "existing_lowered" : "existing_kept") : "existing") : "new";
       bool re = false; for (auto& f : ComplexModel::faces_all(s)) if (!M.has(f) && removed_once.count(f)) re = true;
       if (re) h.reinsertion_after_removal = true;
       M.insert_with_faces(s, op.v);
@@ -177,20 +265,42 @@ inline History generate_history(vh::Rng& r, bool contiguous, int nops_max = 40, 
       std::set<long> vs;
       if (contiguous) { long n = (long)M.num_vertices(); int k = (int)r.below(3); for (int i = 0; i < k && n + i < m; ++i) vs.insert(n + i); if (r.chance(1, 2) && n > 0) vs.insert(r.below(n)); }
       else { int k = 1 + (int)r.below(m); for (int i = 0; i < k; ++i) vs.insert(h.universe[r.below(m)]); }
-      if (vs.empty()) continue;
-      op.kind = BATCH; op.s.assign(vs.begin(), vs.end()); op.raw = op.s; op.v = grid_value(r);
+      const bool bv = ext && ext->batch_variants;
+      if (bv && r.chance(1, 10)) vs.clear();  // the empty list is a list too
+      if (vs.empty() && !bv) continue;
+      op.kind = BATCH; op.s.assign(vs.begin(), vs.end()); op.raw = op.s; op.v = val();
       bool anynew = false, anyold = false; for (long x : vs) (M.has({x}) ? anyold : anynew) = true;
-      op.cls = anynew ? (anyold ? "mixed" : "all_new") : "all_existing";
+      op.cls = vs.empty() ? "empty_list" : anynew ? (anyold ? "mixed" : "all_new") : "all_existing";
+      if (bv && !vs.empty()) {
+        r.shuffle(op.raw);
+        if (r.chance(1, 3)) { int reps = 1 + (int)r.below(3); for (int t = 0; t < reps; ++t) op.raw.push_back(op.raw[r.below(op.raw.size())]); r.shuffle(op.raw); op.inclass = "repeated_vertex"; }
+      }
       M.insert_vertices(op.s, op.v);
     } else if (w < 50) {  // GRAPH (empty tree only, labels 0..n-1)
       if (nsimp != 0 || h.universe[0] != 0 || h.universe[1] != 1) continue;
-      int n = 1 + (int)r.below(m);
+      const bool gx = ext && ext->graph_variants;
+      int n = 1 + (int)r.below(big ? std::min(m, 12) : m);
+      if (gx && r.chance(1, 12)) n = 0;  // a graph without vertices leaves the tree empty
       op.kind = GRAPH; op.gv.resize(n);
-      for (int i = 0; i < n; ++i) op.gv[i] = grid_value(r) / 2;
-      for (int i = 0; i < n; ++i) for (int j = i + 1; j < n; ++j) if (r.chance(1, 2)) op.ge.emplace_back(i, j, std::max({op.gv[i], op.gv[j], grid_value(r)}));
+      for (int i = 0; i < n; ++i) op.gv[i] = wide ? wide_value(r) : grid_value(r) / 2;
+      for (int i = 0; i < n; ++i) for (int j = i + 1; j < n; ++j) if (r.chance(1, 2)) op.ge.emplace_back(i, j, std::max({op.gv[i], op.gv[j], val()}));
       op.cls = "on_empty";
+      if (gx) {
+        op.gdirected = r.chance(1, 3);
+        bool rev = false, dbl = false;
+        size_t ne = op.ge.size();
+        for (size_t e = 0; e < ne; ++e) {
+          if (r.chance(1, 3)) { std::swap(std::get<0>(op.ge[e]), std::get<1>(op.ge[e])); rev = true; }
+          if (r.chance(1, 5)) {  // the same edge a second time (same value: the representative read is arbitrary), in either orientation
+            std::tuple<int, int, double> d = op.ge[e]; if (r.chance(1, 2)) std::swap(std::get<0>(d), std::get<1>(d));
+            op.ge.push_back(d); dbl = true;
+          }
+        }
+        if (dbl) r.shuffle(op.ge);
+        op.cls = std::string(n == 0 ? "no_vertex" : "on_empty") + (op.gdirected ? ",directed" : "") + (rev ? ",reversed_edges" : "") + (dbl ? ",doubled_edges" : "");
+      }
       for (int i = 0; i < n; ++i) M.cx[{(long)i}] = op.gv[i];
-      for (auto& e : op.ge) M.cx[{(long)std::get<0>(e), (long)std::get<1>(e)}] = std::get<2>(e);
+      for (auto& e : op.ge) M.cx[{(long)std::min(std::get<0>(e), std::get<1>(e)), (long)std::max(std::get<0>(e), std::get<1>(e))}] = std::get<2>(e);
     } else if (w < 72) {  // REM
       std::vector<Simplex> cand;
       for (auto& kv : M.cx) if (M.is_maximal(kv.first)) {
@@ -209,6 +319,7 @@ inline History generate_history(vh::Rng& r, bool contiguous, int nops_max = 40, 
       if (!allow_prune_f) continue;
       op.kind = PRUNE_F;
       op.v = r.chance(1, 12) ? std::numeric_limits<double>::infinity() : (r.chance(1, 10) ? -0.25 : grid_value(r));
+      if (wide && r.chance(1, 4)) op.v = r.chance(1, 3) ? -std::numeric_limits<double>::infinity() : -grid_value(r);
       if (contiguous) {
         // would leave a non-contiguous vertex set?  vertices with value > v must be a suffix
         bool ok = true, gone = false; long n = (long)M.num_vertices();
@@ -234,7 +345,6 @@ inline History generate_history(vh::Rng& r, bool contiguous, int nops_max = 40, 
     } else {
       op.kind = NOP; op.cls = "observe_only";
     }
-    (void)vertex_ok;
     h.max_dim = std::max(h.max_dim, M.dimension());
     if (M.cx.empty() && nsimp > 0) h.emptied++;
     h.ops.push_back(op);
@@ -258,33 +368,89 @@ std::vector<typename ST::Vertex_handle> to_vh(const Simplex& s) {
 }
 inline std::string show_set(const std::set<Simplex>& ss) { std::string o; for (auto& s : ss) o += oracle::show(s); return o; }
 
+// What full_check queries beyond its first version (ext) and how it treats the cached dimension bound (qmode).
+struct ObsOpt {
+  int qmode = Q_BYDIM_THEN_DIM;
+  bool ext = false;          // repeated-vertex / permuted find queries, skeleton of negative dimension, cofaces up to codimension dim+1
+  vh::Rng* rng = nullptr;    // needed for permuted / sampled queries
+  int sample_simplices = 0;  // > 0: boundaries / stars / cofaces of at most that many simplices per sweep (large complexes)
+  int sample_queries = 64;   // universes of more than 12 labels: number of sampled find queries besides the model's simplices
+};
+
 // Compares every read interface of `st` with the model.  Returns false after reporting the first mismatch.
 // `sig` is the operation classification prefix for violation signatures.
 template <class ST>
 bool full_check(vh::Case& c, const ST& st, const ComplexModel& M, const std::vector<long>& universe, const std::string& sig,
-                bool query_dimension, const std::string& pfx = "") {
+                const ObsOpt& oo, const std::string& pfx = "") {
   typedef typename ST::Simplex_handle SH;
+  typedef typename ST::Vertex_handle VH;
   const int m = (int)universe.size();
   const int mdim = M.dimension();
+  const bool nonempty = !M.cx.empty();
+  auto check_dimension = [&]() {
+    bool stale = st.upper_bound_dimension() > mdim;
+    int d = st.dimension();
+    c.count("cmp.dimension");
+    if (stale && nonempty) c.count("cmp.dimension_via_deep_search");  // the bound was above the dimension: dimension() had to search
+    if (d != mdim) { c.violation(pfx + "dim.complex", sig + (M.cx.empty() ? ",complex_empty" : (stale ? ",stale_bound" : "")), "dimension()=" + vh::str(d) + " model=" + vh::str(mdim)); return false; }
+    return true;
+  };
   // 0. upper bound (before dimension() refreshes it)
   int ub = st.upper_bound_dimension();
   c.count("cmp.upper_bound_dimension");
   if (ub < mdim) { c.violation(pfx + "dim.upper_bound", sig + ",bound_below_dimension", "upper_bound_dimension()=" + vh::str(ub) + " < true dimension " + vh::str(mdim)); return false; }
   if (ub > mdim) c.count("state.upper_bound_above_dimension");
-  // 1. membership of every subset of the universe
-  for (unsigned mask = 1; mask < (1u << m); ++mask) {
-    Simplex s; for (int i = 0; i < m; ++i) if (mask >> i & 1) s.push_back(universe[i]);
-    std::sort(s.begin(), s.end());
-    SH sh = st.find(to_vh<ST>(s));
+  if (ub > mdim && nonempty) c.count("state.stale_bound_nonempty");
+  if (oo.qmode == Q_DIM_FIRST && !check_dimension()) return false;
+  const bool stale_sweep = nonempty && st.upper_bound_dimension() > mdim;
+  if (stale_sweep) c.count("state.sweep_under_stale_bound");
+  // 1. membership of every subset of the universe (sampled when the universe is large)
+  auto query = [&](const Simplex& s) {
+    std::vector<VH> q = to_vh<ST>(s);
+    if (oo.ext && oo.rng) { oo.rng->shuffle(q); c.count("cmp.find_permuted"); }
+    SH sh = st.find(q);
     bool got = sh != st.null_simplex();
     c.count("cmp.find");
     if (got != M.has(s)) { c.violation(pfx + "find.membership", sig + (got ? ",extra_simplex" : ",missing_simplex"), "find(" + oracle::show(s) + ")=" + vh::str(got) + " model=" + vh::str(M.has(s))); return false; }
-    if (!got) continue;
+    if (oo.ext && oo.rng && oo.rng->chance(1, 8)) {  // a repeated vertex does not change the simplex that is asked for
+      std::vector<VH> q2 = q; VH rep = q2[oo.rng->below(q2.size())]; q2.push_back(rep); oo.rng->shuffle(q2);
+      SH sh2 = st.find(q2);
+      bool got2 = sh2 != st.null_simplex();
+      c.count("cmp.find_repeated_vertex");
+      if (got2 && got && sh2 != sh) { c.violation(pfx + "find.handle", "query=repeated_vertex", "find(" + oracle::show(s) + " with vertex repeated) is not the handle of the simplex"); return false; }
+      if (got2 && word(st, sh2) != s) { c.violation(pfx + "find.vertices", "query=repeated_vertex", "find(" + oracle::show(s) + " with vertex repeated) has vertices " + oracle::show(word(st, sh2))); return false; }
+      if (got2 != M.has(s)) { c.violation(pfx + "find.membership", std::string("query=repeated_vertex") + (got2 ? ",extra_simplex" : ",missing_simplex"), "find(" + oracle::show(s) + " with vertex repeated)=" + vh::str(got2) + " model=" + vh::str(M.has(s))); return false; }
+    }
+    if (!got) return true;
     if (word(st, sh) != s) { c.violation(pfx + "find.vertices", sig, "simplex_vertex_range(find(" + oracle::show(s) + "))=" + oracle::show(word(st, sh))); return false; }
     if (st.dimension(sh) != (int)s.size() - 1) { c.violation(pfx + "dim.simplex", sig, "dimension(sh) of " + oracle::show(s) + " = " + vh::str(st.dimension(sh))); return false; }
     if constexpr (ST::Options::store_filtration) {
       c.count("cmp.filtration");
       if ((double)st.filtration(sh) != M.cx.at(s)) { c.violation(pfx + "filtration.value", sig, "filtration(" + oracle::show(s) + ")=" + vh::str(st.filtration(sh)) + " model=" + vh::str(M.cx.at(s))); return false; }
+    }
+    return true;
+  };
+  if (m <= 12) {
+    for (unsigned mask = 1; mask < (1u << m); ++mask) {
+      Simplex s; for (int i = 0; i < m; ++i) if (mask >> i & 1) s.push_back(universe[i]);
+      std::sort(s.begin(), s.end());
+      if (!query(s)) return false;
+    }
+  } else {
+    for (auto& kv : M.cx) if (!query(kv.first)) return false;
+    std::vector<Simplex> present; for (auto& kv : M.cx) present.push_back(kv.first);
+    for (int t = 0; oo.rng && t < oo.sample_queries; ++t) {  // random subsets, and neighbours of present simplices (one vertex more / less / replaced)
+      vh::Rng& r = *oo.rng;
+      std::set<long> q;
+      if (present.empty() || r.chance(1, 3)) { int sz = 1 + (int)r.below(5); for (int i = 0; i < sz; ++i) q.insert(universe[r.below(m)]); }
+      else {
+        const Simplex& p = present[r.below(present.size())]; q.insert(p.begin(), p.end());
+        unsigned how = (unsigned)r.below(3);
+        if (how != 0 && q.size() > 1) { auto it = q.begin(); std::advance(it, r.below(q.size())); q.erase(it); }
+        if (how != 1) q.insert(universe[r.below(m)]);
+      }
+      c.count("cmp.find_sampled");
+      if (!query(Simplex(q.begin(), q.end()))) return false;
     }
   }
   // 2. vertices
@@ -306,18 +472,26 @@ bool full_check(vh::Case& c, const ST& st, const ComplexModel& M, const std::vec
     if (n != got.size()) { c.violation(pfx + "simplex_range.duplicates", sig, "complex_simplex_range lists " + vh::str(n) + " handles for " + vh::str(got.size()) + " distinct simplices"); return false; }
     if (got != want) { c.violation(pfx + "simplex_range.set_equal", sig, "complex_simplex_range=" + show_set(got) + " model=" + show_set(want)); return false; }
     if (st.num_simplices() != M.cx.size()) { c.violation(pfx + "count.num_simplices", sig, "num_simplices()=" + vh::str(st.num_simplices()) + " model=" + vh::str(M.cx.size())); return false; }
-    auto bd = st.num_simplices_by_dimension();
-    c.count("cmp.by_dimension");
-    if (bd != M.by_dimension()) { c.violation(pfx + "count.by_dimension", sig, "num_simplices_by_dimension()=" + vh::vstr(bd) + " model=" + vh::vstr(M.by_dimension())); return false; }
+    if (oo.qmode == Q_BYDIM_THEN_DIM || oo.qmode == Q_BYDIM_ONLY) {  // (refreshes a stale bound, like dimension())
+      bool stale = nonempty && st.upper_bound_dimension() > mdim;
+      auto bd = st.num_simplices_by_dimension();
+      c.count("cmp.by_dimension");
+      if (stale) c.count("cmp.by_dimension_under_stale_bound");
+      if (bd != M.by_dimension()) { c.violation(pfx + "count.by_dimension", sig + (stale ? ",stale_bound" : ""), "num_simplices_by_dimension()=" + vh::vstr(bd) + " model=" + vh::vstr(M.by_dimension())); return false; }
+      if (st.upper_bound_dimension() < mdim) { c.violation(pfx + "dim.upper_bound", sig + ",bound_below_dimension,after_by_dimension", "upper_bound_dimension()=" + vh::str(st.upper_bound_dimension()) + " < true dimension " + vh::str(mdim)); return false; }
+    }
   }
   // 4. skeleta
-  for (int d = 0; d <= mdim + 1; ++d) {
+  for (int d = (oo.ext ? -2 : 0); d <= mdim + 1; ++d) {
+    int dd = d == -2 ? -7 : d;
     std::set<Simplex> got; size_t n = 0;
-    for (SH sh : st.skeleton_simplex_range(d)) { got.insert(word(st, sh)); ++n; }
-    c.count("cmp.skeleton");
-    if (n != got.size() || got != M.skeleton(d)) { c.violation(pfx + "skeleton.set_equal", sig + ",d_minus_dim=" + vh::str(d - mdim), "skeleton_simplex_range(" + vh::str(d) + ") has " + vh::str(n) + " handles / " + vh::str(got.size()) + " distinct, model " + vh::str(M.skeleton(d).size())); return false; }
+    for (SH sh : st.skeleton_simplex_range(dd)) { got.insert(word(st, sh)); ++n; }
+    c.count(dd < 0 ? "cmp.skeleton_negative_dimension" : "cmp.skeleton");
+    if (n != got.size() || got != M.skeleton(dd)) { c.violation(pfx + "skeleton.set_equal", dd < 0 ? std::string("query=negative_dimension") + (M.cx.empty() ? ",complex_empty" : "") : sig + ",d_minus_dim=" + vh::str(dd - mdim), "skeleton_simplex_range(" + vh::str(dd) + ") has " + vh::str(n) + " handles / " + vh::str(got.size()) + " distinct, model " + vh::str(M.skeleton(dd).size())); return false; }
   }
-  // 5. boundaries, stars, cofaces of every simplex
+  // 5. boundaries, stars, cofaces of every simplex (of a sample when the complex is large)
+  if (oo.sample_simplices > 0 && oo.rng && (int)handles.size() > oo.sample_simplices) { oo.rng->shuffle(handles); handles.resize(oo.sample_simplices); c.count("state.sampled_sweep"); }
+  const int kmax = oo.ext ? std::max(3, mdim + 1) : 3;
   for (SH sh : handles) {
     Simplex s = word(st, sh);
     int codim_top = mdim - ((int)s.size() - 1);
@@ -340,26 +514,32 @@ bool full_check(vh::Case& c, const ST& st, const ComplexModel& M, const std::vec
       c.count("cmp.boundary_opposite");
       if (n != s.size() || got.size() != s.size()) { c.violation(pfx + "boundary_opposite.count", ssig, "boundary_opposite_vertex(" + oracle::show(s) + ") gave " + vh::str(n) + " pairs"); return false; }
     }
-    for (int k = 0; k <= 3; ++k) {
+    for (int k = 0; k <= kmax; ++k) {
       std::set<Simplex> got; size_t n = 0;
       if (k == 0) for (SH t : st.star_simplex_range(sh)) { got.insert(word(st, t)); ++n; }
       else for (SH t : st.cofaces_simplex_range(sh, k)) { got.insert(word(st, t)); ++n; }
       auto want = M.cofaces(s, k);
       c.count(k == 0 ? "cmp.star" : "cmp.cofaces");
+      if (k > 3) c.count("cmp.cofaces_codim_above_3");
+      if (k > 0 && (int)s.size() - 1 + k > mdim) c.count("cmp.cofaces_beyond_dimension");
       if (n != got.size() || got != want) {
-        c.violation(pfx + (k == 0 ? "star.set_equal" : "cofaces.set_equal"), ssig + ",codim=" + vh::str(k) + (got.size() < want.size() ? ",missing" : ",extra"),
+        c.violation(pfx + (k == 0 ? "star.set_equal" : "cofaces.set_equal"), ssig + ",codim=" + vh::str(k) + (got.size() < want.size() ? ",missing" : ",extra") + (stale_sweep && oo.ext ? ",stale_bound" : ""),
                     std::string(k == 0 ? "star" : "cofaces") + "(" + oracle::show(s) + "," + vh::str(k) + ")=" + show_set(got) + " (" + vh::str(n) + " handles) model=" + show_set(want));
         return false;
       }
     }
   }
   // 6. dimension of the complex (refreshes the cached bound when queried)
-  if (query_dimension) {
-    int d = st.dimension();
-    c.count("cmp.dimension");
-    if (d != mdim) { c.violation(pfx + "dim.complex", sig + (M.cx.empty() ? ",complex_empty" : ""), "dimension()=" + vh::str(d) + " model=" + vh::str(mdim)); return false; }
-  }
+  if (oo.qmode == Q_BYDIM_THEN_DIM || oo.qmode == Q_DIM_LAST) { if (!check_dimension()) return false; }
   return true;
+}
+// The first interface: query_dimension = true -> num_simplices_by_dimension() and dimension() are queried (both refresh a stale
+// bound), false -> neither is (the bound is left as the operation left it).
+template <class ST>
+bool full_check(vh::Case& c, const ST& st, const ComplexModel& M, const std::vector<long>& universe, const std::string& sig,
+                bool query_dimension, const std::string& pfx = "") {
+  ObsOpt oo; oo.qmode = query_dimension ? Q_BYDIM_THEN_DIM : Q_NONE;
+  return full_check(c, st, M, universe, sig, oo, pfx);
 }
 
 // Operations that the library itself documents / implements as dropping the filtration cache; after any other
@@ -403,47 +583,87 @@ template <class ST>
 bool apply_op(vh::Case& c, ST& st, ComplexModel& M, const Op& op, const std::string& pfx = "") {
   typedef typename ST::Filtration_value FV;
   typedef typename ST::Vertex_handle VH;
-  std::string sig = std::string("op=") + op_name(op.kind) + "," + op.cls;
+  std::string sig = op.sig();
   c.count(std::string("op.") + op_name(op.kind));
   c.count(std::string("opclass.") + op_name(op.kind) + "." + op.cls);
+  if (!op.inclass.empty()) c.count(std::string("opclass.") + op_name(op.kind) + ".input_" + op.inclass);
+  // documented result of the two simplex insertions: (handle of the new simplex, true) | (handle, false) when an existing simplex
+  // got a strictly smaller value | (null_simplex(), false) when nothing changed
+  auto check_result = [&](const std::pair<typename ST::Simplex_handle, bool>& res, bool existed, double old, const std::string& id, const char* fn) {
+    if (res.second != !existed) { c.violation(pfx + id + ".return_bool", sig, std::string(fn) + " returned inserted=" + vh::str(res.second) + " but simplex existed=" + vh::str(existed)); return false; }
+    // a simplex has one handle: the one a lookup returns (lookups always terminate, so this is safe before any traversal)
+    if (res.first != st.null_simplex() && res.first != st.find(to_vh<ST>(op.s))) { c.violation(pfx + id + ".return_handle", sig, "the returned handle is not the handle find() returns for the simplex"); return false; }
+    if (res.second) {
+      if (res.first == st.null_simplex() || word(st, res.first) != op.s) { c.violation(pfx + id + ".return_handle", sig, "handle of new simplex wrong"); return false; }
+    } else if (ST::Options::store_filtration) {
+      bool lowered = op.v < old;
+      if (lowered != (res.first != st.null_simplex())) { c.violation(pfx + id + ".return_handle", sig, "existing simplex: lowered=" + vh::str(lowered) + " handle_null=" + vh::str(res.first == st.null_simplex())); return false; }
+    }
+    return true;
+  };
   switch (op.kind) {
     case INS: {
       bool existed = M.has(op.s); double old = existed ? M.cx.at(op.s) : 0;
       std::vector<VH> raw; for (long x : op.raw) raw.push_back((VH)x);
       auto res = st.insert_simplex(raw, (FV)op.v);
       M.insert_one(op.s, op.v);
-      if (res.second != !existed) { c.violation(pfx + "insert.return_bool", sig, "insert_simplex returned inserted=" + vh::str(res.second) + " but simplex existed=" + vh::str(existed)); return false; }
-      if (res.second) { if (res.first == st.null_simplex() || word(st, res.first) != op.s) { c.violation(pfx + "insert.return_handle", sig, "handle of new simplex wrong"); return false; } }
-      else if (ST::Options::store_filtration) {
-        bool lowered = op.v < old;
-        if (lowered != (res.first != st.null_simplex())) { c.violation(pfx + "insert.return_handle", sig, "existing simplex: lowered=" + vh::str(lowered) + " handle_null=" + vh::str(res.first == st.null_simplex())); return false; }
+      if (!check_result(res, existed, old, "insert", "insert_simplex")) return false;
+      if (op.raw.size() != op.s.size()) {
+        // The vertices were given with repetitions.  Before any traversal, look (with lookups only, which always terminate) for a
+        // node reached by spelling a face with a vertex twice: asking for {..,x,x} is asking for {..,x}.
+        for (auto& f : ComplexModel::faces_all(op.s)) for (long x : f) {
+          std::vector<VH> q = to_vh<ST>(f); q.push_back((VH)x);
+          auto sh = st.find(q);
+          c.count("cmp.find_repeated_vertex");
+          if (sh == st.null_simplex()) { if (M.has(f)) { c.violation(pfx + "find.membership", sig + ",repeated_vertex_query,missing_simplex", "find(" + oracle::show(f) + " with " + vh::str(x) + " repeated) is null, the simplex is present"); return false; } }
+          else if (word(st, sh) != f) { c.violation(pfx + "find.vertices", sig + ",repeated_vertex_query", "find(" + oracle::show(f) + " with " + vh::str(x) + " repeated) has vertices " + oracle::show(word(st, sh))); return false; }
+          else if (sh != st.find(to_vh<ST>(f))) { c.violation(pfx + "find.handle", sig + ",repeated_vertex_query", "find(" + oracle::show(f) + " with " + vh::str(x) + " repeated) is not the handle of " + oracle::show(f)); return false; }
+        }
       }
       break;
     }
     case INSF: {
-      bool existed = M.has(op.s);
+      bool existed = M.has(op.s); double old = existed ? M.cx.at(op.s) : 0;
       std::vector<VH> raw; for (long x : op.raw) raw.push_back((VH)x);
       auto res = st.insert_simplex_and_subfaces(raw, (FV)op.v);
       M.insert_with_faces(op.s, op.v);
-      if (res.second != !existed) { c.violation(pfx + "insert_subfaces.return_bool", sig, "returned inserted=" + vh::str(res.second) + " existed=" + vh::str(existed)); return false; }
+      if (!check_result(res, existed, old, "insert_subfaces", "insert_simplex_and_subfaces")) return false;
+      c.count("cmp.insert_subfaces_handle");
+      break;
+    }
+    case STREAM: {  // the complex is only required to be simplicial again at the end of the stream: nothing is observed in between
+      for (auto& e : op.stream) {
+        std::vector<VH> raw; for (long x : e.first) raw.push_back((VH)x);
+        st.insert_simplex(raw, (FV)e.second);
+        Simplex s(e.first.begin(), e.first.end()); std::sort(s.begin(), s.end());
+        M.insert_one(s, e.second);
+        c.count("op.insert_simplex_in_stream");
+      }
       break;
     }
     case BATCH: {
-      std::vector<VH> vs; for (long x : op.s) vs.push_back((VH)x);
+      std::vector<VH> vs; for (long x : op.raw) vs.push_back((VH)x);
       st.insert_batch_vertices(vs, (FV)op.v);
       M.insert_vertices(op.s, op.v);
       break;
     }
     case GRAPH: {
-      typedef boost::adjacency_list<boost::vecS, boost::vecS, boost::undirectedS,
-                                    boost::property<Gudhi::vertex_filtration_t, FV>,
-                                    boost::property<Gudhi::edge_filtration_t, FV>> Graph;
-      Graph g(op.gv.size());
-      for (size_t i = 0; i < op.gv.size(); ++i) boost::put(Gudhi::vertex_filtration_t(), g, i, (FV)op.gv[i]);
-      for (auto& e : op.ge) boost::add_edge(std::get<0>(e), std::get<1>(e), (FV)std::get<2>(e), g);
-      st.insert_graph(g);
+      auto fill = [&](auto& g) {
+        for (size_t i = 0; i < op.gv.size(); ++i) boost::put(Gudhi::vertex_filtration_t(), g, i, (FV)op.gv[i]);
+        for (auto& e : op.ge) boost::add_edge(std::get<0>(e), std::get<1>(e), (FV)std::get<2>(e), g);
+        st.insert_graph(g);
+      };
+      if (!op.gdirected) {
+        boost::adjacency_list<boost::vecS, boost::vecS, boost::undirectedS, boost::property<Gudhi::vertex_filtration_t, FV>,
+                              boost::property<Gudhi::edge_filtration_t, FV>> g(op.gv.size());
+        fill(g);
+      } else {
+        boost::adjacency_list<boost::vecS, boost::vecS, boost::directedS, boost::property<Gudhi::vertex_filtration_t, FV>,
+                              boost::property<Gudhi::edge_filtration_t, FV>> g(op.gv.size());
+        fill(g);
+      }
       for (size_t i = 0; i < op.gv.size(); ++i) M.cx[{(long)i}] = op.gv[i];
-      for (auto& e : op.ge) M.cx[{(long)std::get<0>(e), (long)std::get<1>(e)}] = std::get<2>(e);
+      for (auto& e : op.ge) M.cx[{(long)std::min(std::get<0>(e), std::get<1>(e)), (long)std::max(std::get<0>(e), std::get<1>(e))}] = std::get<2>(e);
       break;
     }
     case REM: {
